@@ -115,6 +115,11 @@ func (h *baseHandler) Read(p []byte) (n int, err error) {
 			h.readBuf.WriteString(protocol.FieldDelimiter)
 		}
 		h.readBuf.WriteString(line.Content.String())
+		if !h.plain && !bytes.HasSuffix(line.Content.Bytes(), []byte{'\n'}) {
+			// The last line of a file may lack the newline. The records the client prints
+			// are lines though: terminate it, or the next record continues on the same line.
+			h.readBuf.WriteByte('\n')
+		}
 		h.readBuf.WriteByte(protocol.MessageDelimiter)
 		n, _ = h.readBuf.Read(p)
 		pool.RecycleBytesBuffer(line.Content)
